@@ -2,10 +2,12 @@ package props
 
 import (
 	"encoding/json"
+	"math/big"
 	"net/http"
 	"net/url"
 	"os"
 	"regexp"
+	"strconv"
 	"strings"
 
 	"github.com/Oudwins/zog/parsers/zjson"
@@ -47,13 +49,11 @@ func frontExec(b *spec.Built, n *spec.Node, rec any, front string, prefill any, 
 		return run.Parse(b, data, prefill), &ref.Env{Mode: ref.Parse}, data
 	case "zjson":
 		doc := gen.RecToJSON(n, rec)
-		var decoded map[string]any
-		_ = json.Unmarshal([]byte(doc), &decoded)
+		decoded, _ := decodeJSONDoc(doc)
 		return run.Parse(b, zjson.Decode(strings.NewReader(doc)), prefill), &ref.Env{Mode: ref.Parse, SourceTag: "json"}, any(decoded)
 	case "zhttp-json":
 		doc := gen.RecToJSON(n, rec)
-		var decoded map[string]any
-		_ = json.Unmarshal([]byte(doc), &decoded)
+		decoded, _ := decodeJSONDoc(doc)
 		r, _ := http.NewRequest("POST", "/x?unrelated=1", strings.NewReader(doc))
 		r.Header.Set("Content-Type", "application/json; charset=utf-8")
 		return run.Parse(b, zhttp.Request(r), prefill), &ref.Env{Mode: ref.Parse, SourceTag: "json"}, any(decoded)
@@ -97,6 +97,54 @@ func frontExec(b *spec.Built, n *spec.Node, rec any, front string, prefill any, 
 		return run.Parse(b, zenv.NewDataProvider(), prefill), env, nil
 	}
 	panic("unknown front " + front)
+}
+
+// decodeJSONDoc is what a JSON document presents, computed independently of zog: objects and arrays as maps and slices, numbers
+// as float64 - except integer literals a float64 cannot hold exactly, which stay the exact integer (C18: a number is never
+// silently changed on its way to the schema). more=true: data follows the first value.
+func decodeJSONDoc(doc string) (m map[string]any, err error) {
+	dec := json.NewDecoder(strings.NewReader(doc))
+	dec.UseNumber()
+	if err = dec.Decode(&m); err != nil {
+		return nil, err
+	}
+	var fix func(v any) (any, error)
+	fix = func(v any) (any, error) {
+		switch x := v.(type) {
+		case map[string]any:
+			for k, e := range x {
+				n, err := fix(e)
+				if err != nil {
+					return nil, err
+				}
+				x[k] = n
+			}
+		case []any:
+			for i, e := range x {
+				n, err := fix(e)
+				if err != nil {
+					return nil, err
+				}
+				x[i] = n
+			}
+		case json.Number:
+			f, ferr := strconv.ParseFloat(string(x), 64)
+			if ferr != nil {
+				return nil, ferr // beyond the float64 range: undecodable, as with encoding/json's default number handling
+			}
+			if bi, ok := new(big.Int).SetString(string(x), 10); ok && bi.IsInt64() {
+				if back, acc := new(big.Float).SetFloat64(f).Int(nil); acc != big.Exact || back.Cmp(bi) != 0 {
+					return int(bi.Int64()), nil
+				}
+			}
+			return f, nil
+		}
+		return v, nil
+	}
+	if _, err = fix(m); err != nil {
+		return nil, err
+	}
+	return m, nil
 }
 
 // addStray puts a value under the own key of every nested struct field, and a `key[]` parameter next to every absent field
